@@ -129,11 +129,7 @@ def inHyp (roi : Roi) (ε : Rat) : Bool :=
   decide (0 ≤ ε) &&
   match roi with
   | .rect r => isUnit r.c r.s && decide (r.branchTol ≤ ε)
-  | .ellipse e => isUnit e.c e.s && decide (0 < e.rx) && decide (0 < e.ry) &&
-      (match branchOf e.c e.s with
-       | .axis => e.s == 0
-       | .quarter => e.c == 0
-       | .general => true)
+  | .ellipse e => isUnit e.c e.s && decide (0 < e.rx) && decide (0 < e.ry) && decide (e.branchTol ≤ ε)
   | .poly g => decide (3 ≤ g.vs.length)
   | _ => true
 
